@@ -823,7 +823,7 @@ def main():
         for c in stats['classes']:
             ck.count('op:' + c)
     # H. hash-colliding members (see gen_collision_cases)
-    for _ in range(150 if quick else 1200):
+    for _ in range(150 if quick else 800):
         for spec in gen_collision_cases(rng):
             lit, m, fails, stats = run_case(spec)
             cases.append(lit)
